@@ -30,7 +30,28 @@ var operandSets = []operandSet{
 	{"zeroish", []model.Value{model.Int(0), model.Int(1), model.Int(0), model.Int(7)}},
 	// decimal fractions that are not exact in binary: products and sums land next to whole numbers
 	{"inexact-float", []model.Value{model.Float(4.35), model.Float(100.0), model.Float(0.7), model.Float(0.1)}},
+	// results far below one millionth and far above 10^21, where number printers like to change notation
+	{"tiny-and-huge-float", []model.Value{model.Float(0.00000025), model.Float(8000000.0), model.Float(1000000000000000.0), model.Float(0.5)}},
+	// strings that are valid UTF-8 only when joined
+	{"split-utf8-string", []model.Value{model.Str("caf\xc3"), model.Str("\xa9"), model.Str("\xff"), model.Str("caf\xc3")}},
 }
+
+// bound values with methods of their own next to exported fields
+type c01Point struct{ X, Y int }
+
+func (p c01Point) String() string { return fmt.Sprintf("(%d,%d)", p.X, p.Y) }
+
+type c01PtrPoint struct{ X, Y int }
+
+func (p *c01PtrPoint) String() string { return "ptr-point" }
+
+type c01ErrPoint struct{ X, Y int }
+
+func (p c01ErrPoint) Error() string { return "err-point" }
+
+type c01TextPoint struct{ X, Y int }
+
+func (p c01TextPoint) MarshalText() ([]byte, error) { return []byte("text-point"), nil }
 
 // variable names that only look like keywords: a keyword in another case, or with a keyword as prefix
 var operandNames = []string{"In", "vb", "Nil", "TRUE"}
@@ -708,6 +729,34 @@ func init() {
 						}
 					}
 					judgeExpr(c, model.Binary{Op: "+", L: model.Var{Name: "x"}, R: model.Var{Name: "x"}}, map[string]model.Value{"x": nn.eq}, "native-number")
+				}})
+			// operands that are fields of bound values with methods (String, Error, MarshalText): such a value is the object of its
+			// exported fields like any other struct - directly, behind a pointer, as element and as map value
+			methodVals := []struct {
+				name string
+				mk   func(x, y int) any
+			}{
+				{"Stringer", func(x, y int) any { return c01Point{x, y} }}, {"pointer to Stringer", func(x, y int) any { return &c01Point{x, y} }},
+				{"pointer-receiver Stringer", func(x, y int) any { return &c01PtrPoint{x, y} }}, {"pointer-receiver Stringer by value", func(x, y int) any { return c01PtrPoint{x, y} }},
+				{"error", func(x, y int) any { return c01ErrPoint{x, y} }}, {"TextMarshaler", func(x, y int) any { return c01TextPoint{x, y} }},
+			}
+			secs = append(secs, core.Section{Name: "operands-from-values-with-methods", Exhaustive: true, N: len(methodVals),
+				Run: func(c *core.Ctx, i int) {
+					mv := methodVals[i]
+					srcs := []string{"{{ p.X + 1 }}", "{{ p.X / p.Y * 2 }}", "{{ pts[1].Y > pts[0].Y ? pts[1].Y : 0 }}", "{{ (m.a).X % 3 }}", "{{ -p.Y + pts[0].X * m.a.Y }}", "{{ p.X == 8 && m.a.Y == 4 }}", "{{ [p.X, p.Y][1] - 1 }}"}
+					data := map[string]any{"p": mv.mk(8, 4), "pts": []any{mv.mk(1, 2), mv.mk(3, 9)}, "m": map[string]any{"a": mv.mk(8, 4)}}
+					plain := func(x, y int) any { return map[string]any{"X": x, "Y": y} }
+					same := map[string]any{"p": plain(8, 4), "pts": []any{plain(1, 2), plain(3, 9)}, "m": map[string]any{"a": plain(8, 4)}}
+					for _, src := range srcs {
+						c.Input(map[string]any{"source": src, "p": mv.name})
+						got := evalString(c, src, data)
+						want := evalString(c, src, same)
+						c.Nontrivial(src + mv.name)
+						if !got.Panicked && !want.Panicked && got.Describe() != want.Describe() {
+							c.Violation("operands-with-methods", fmt.Sprintf("with p, pts, m.a bound to %s values {X, Y}, %s gave %s; with plain objects of the same fields it gives %s", mv.name, src, got.Describe(), want.Describe()), map[string]any{"source": src, "p": mv.name})
+						}
+					}
+					judgeExpr(c, model.Binary{Op: "+", L: model.Dot{X: model.Var{Name: "p"}, Name: "X"}, R: model.Lit{V: model.Int(1)}}, map[string]model.Value{"p": model.Obj(map[string]model.Value{"X": model.Int(8), "Y": model.Int(4)})}, "operands-with-methods")
 				}})
 			// one loaded page of expressions rendered with data sets that print alike but are of different types, through
 			// String and Response (strings holding percent signs included); struct bindings with unexported fields in front
